@@ -8,7 +8,9 @@
 (* of C18 / C16 / C08.  Whether a sentence really takes the alternative is decided by LL1!Run on    *)
 (* the trace of what the real parser did, not here.                                                 *)
 EXTENDS LL1
-CONSTANTS MaxStack, MaxOut
+CONSTANTS MaxStack, MaxOut,
+          Rev        \* FALSE: alternatives tried first-to-last, TRUE: last-to-first (breadth-first search then
+                     \* reaches every stack first through the last alternatives, e.g. bindings instead of constants)
 VARIABLES stack, out, deriv
 dvars == <<stack, out, deriv>>
 
@@ -20,7 +22,8 @@ DNext == /\ Len(stack) > 0
                     /\ stack' = Tail(stack)
                     /\ UNCHANGED deriv
                ELSE /\ top.v \in Rules
-                    /\ \E i \in Alts(top.v) :
+                    /\ \E j \in Alts(top.v) :
+                          LET i == IF Rev THEN Len(G[top.v]) + 1 - j ELSE j IN
                           /\ stack' = Push(top.v, i) \o Tail(stack)
                           /\ deriv' = Append(deriv, [r |-> top.v, i |-> i])
                     /\ UNCHANGED out
@@ -32,5 +35,6 @@ DBound == Len(stack) <= MaxStack /\ Len(out) <= MaxOut
 
 DEmit == (deriv' # deriv) =>
             PrintT(ToJson([r |-> Head(stack).v, i |-> deriv'[Len(deriv')].i, prev |-> LastK(out),
-                           n |-> Len(out), s |-> out \o CompleteSt(stack')]))
+                           n |-> Len(out),
+                           s |-> out \o CompleteSt(stack', IF Rev THEN MinYieldRev ELSE MinYield)]))
 =============================================================================
